@@ -14,7 +14,7 @@ RULE = (
     "make_transient_to_detached on 1-3 generated objects of a one-column mapped class (primary keys drawn from "
     "{1,1,2} so that identities collide, 0-2 rows pre-inserted, expire_on_commit on/off) driven against a real "
     "Session on in-memory SQLite: all 1000 histories of length 3 on one object, 2-object histories of "
-    "length 2 (every second quick, all 400 thorough), tours (a flushed / unflushed delete, two operations, flush, "
+    "length 2 (every second quick, all 400 thorough), tours (a flushed / unflushed delete or a rolled-back add+delete, two operations, flush, "
     "commit), SAVEPOINT histories with begin_nested / release / rollback-to-savepoint (judged by the oracle only: the "
     "Coq model has no nested transactions), the defect histories, and random histories of length <= 10 (three operation weightings); "
     "thorough: all 10^4 one-object histories of length 4 and 20000 random ones.  Before every operation the "
@@ -212,8 +212,8 @@ def gen_cases(rng, tier):
             continue
         cases.append({"in": [1 - (k & 1), [1, 1], [], [[0, 0], [3, 0], [a, i], [b, j], [5, 0]]], "kind": "two-objects"})
     # tours: a flushed / an unflushed delete, two operations, then flush and commit
-    tour_ops = (0, 1, 2, 3, 5, 8, 9) if tier != "thorough" else tuple(range(10))
-    for pre in ([[0, 0], [4, 0], [1, 0], [3, 0]], [[0, 0], [4, 0], [1, 0]]):
+    tour_ops = (0, 1, 2, 3, 5, 6, 8, 9) if tier != "thorough" else tuple(range(10))
+    for pre in ([[0, 0], [4, 0], [1, 0], [3, 0]], [[0, 0], [4, 0], [1, 0]], [[0, 0], [3, 0], [1, 0], [3, 0], [5, 0]]):
         for k, (x, y) in enumerate(itertools.product(tour_ops, repeat=2)):
             cases.append({"in": [k & 1, [1], [], pre + [[x, 0], [y, 0], [3, 0], [4, 0]]], "kind": "tour"})
     # SAVEPOINT histories (begin_nested / rollback or release of the savepoint): the Coq model has no nested
@@ -465,7 +465,14 @@ def _describe(v):
 
 def oracle(case, obs):
     v = _violations(case, obs)
-    return _describe(v[0]) if v else None
+    if not v:
+        return None
+    # report a violation that no known-finding signature explains, if there is one (a listed defect earlier in
+    # the history must not hide a different one later)
+    for x in v:
+        if match_finding(case, _describe(x)) is None:
+            return _describe(x)
+    return _describe(v[0])
 
 
 _RESTORE_OPS = (3, 4, 5, 7, 10, 11, 12)   # operations that can run _restore_snapshot (rollbacks, failing flushes)
@@ -516,8 +523,9 @@ LEVEL_TEXT = (
     "InstanceState predicates partition every state; for every history of the ten operations (unbounded length, "
     "any number of objects, any database / attribute environment) inside an explicit guard the transition/event "
     "log is a sequence of documented transitions each immediately followed by exactly its documented event and no "
-    "other event; outside the guard seven concrete histories refute the property (five defect classes reproduced on "
-    "the implementation and listed as known findings).  Tie to the code: 49 pinned anchors, the predicates and the "
+    "other event; outside the guard six concrete histories refute the property (four defect classes reproduced on "
+    "the implementation and listed as known findings; the delete()+rollback() defect is repaired in /repo 93a87c1 and "
+    "is now a positive example inside the guard).  Tie to the code: 49 pinned anchors, the predicates and the "
     "event table regenerated from the source on every run, and model/implementation correspondence on histories."
 )
 LEVEL_NOTE = (
